@@ -137,6 +137,36 @@ def check_dim_grid(case, rec):
     gradcheck.check_grad(ops.BY_NAME[case["op"]], case, rec)
 
 
+# ---- operands with a zero-length dimension ---------------------------------------------------------
+def check_zero_size(c, rec):
+    from .. import zerosize
+    try:
+        out, ref, ops_ = zerosize.run(c)
+    except Exception:  # noqa: BLE001   (C05 owns acceptance)
+        rec.skip = "forward_rejected"
+        return
+    rec.tag(c["kind"])
+    rec.nontrivial(True)
+    if not out.requires_grad:
+        rec.skip = "no_grad_result"
+        return
+    g = gen.cyc(c["g"], out.shape, np.dtype(c["dtype"]))
+    try:
+        out.backward(Tensor(g.copy()))
+    except Exception as e:  # noqa: BLE001
+        raise Violation("backward_raised", f"forward accepted operands {[list(t.shape) for t in ops_]} ({c['kind']}, result shape "
+                                           f"{list(out.shape)}) but backward raised {type(e).__name__}: {e}; {c}", region="zero_size")
+    for i, (t, e) in enumerate(zip(ops_, zerosize.expected_grads(c, out, ops_, g))):
+        if e is None:
+            continue
+        if t.grad is None:
+            raise Violation("grad_missing", f"operand {i} requires grad but has none after backward; {c}", region="zero_size")
+        got = np.asarray(t.grad.data, dtype=np.float64)
+        if got.shape != e.shape or (got.size and np.abs(got - e).max() > 1e-6 * max(1.0, np.abs(e).max())):
+            raise Violation("grad_value", f"operand {i} of shape {list(t.shape)}: gradient {got.tolist()} (shape {got.shape}), "
+                                          f"expected {e.tolist()}; {c}", region="zero_size")
+
+
 def subchecks():
     subs = []
     for op in ops.OPS:
@@ -144,5 +174,7 @@ def subchecks():
                              quick=400, thorough=3000, shards_quick=2, shards_thorough=4))
     subs.append(SubCheck("maxmin_ties", check_ties, tie_cases, quick=300, thorough=4000))
     subs.append(SubCheck("maxmin_near_ties", check_near_ties, near_tie_cases, quick=300, thorough=4000))
+    from .. import zerosize
+    subs.append(SubCheck("zero_size", check_zero_size, zerosize.cases, quick=500, thorough=6000))
     subs.append(SubCheck("dim_grid", check_dim_grid, None, enum=enum_dims_grad, exhaustive=True, shards_quick=8, shards_thorough=16))
     return subs
